@@ -105,6 +105,32 @@ where
         self.inner.record_str(field, value);
     }
 
+    fn record_f64(&mut self, field: &Field, value: f64) {
+        self.delimit();
+        self.inner.record_f64(field, value);
+    }
+
+    fn record_i128(&mut self, field: &Field, value: i128) {
+        self.delimit();
+        self.inner.record_i128(field, value);
+    }
+
+    fn record_u128(&mut self, field: &Field, value: u128) {
+        self.delimit();
+        self.inner.record_u128(field, value);
+    }
+
+    fn record_bytes(&mut self, field: &Field, value: &[u8]) {
+        self.delimit();
+        self.inner.record_bytes(field, value);
+    }
+
+    #[cfg(feature = "std")]
+    fn record_error(&mut self, field: &Field, value: &(dyn std::error::Error + 'static)) {
+        self.delimit();
+        self.inner.record_error(field, value);
+    }
+
     fn record_debug(&mut self, field: &Field, value: &dyn fmt::Debug) {
         self.delimit();
         self.inner.record_debug(field, value);
